@@ -36,6 +36,7 @@ def run(S):
     fee_from_spent(S, D, W)
     bump(S, D, W)
     package_feerate(S, D)
+    locktime_and_output(S, D, W)
 
 
 def estimator(E):
@@ -133,3 +134,70 @@ def package_feerate(S, D):
         z3.Implies(z3.And(sd == SV('ForceBump'), e <= p32), z3.And(rv.t >= p32, rv.t <= p32 + p32 / 4))),
         'per strategy: retry = previous, highest = max(previous, estimate), force = estimate if higher else previous + 25% (capped at 5x the estimate but never below previous)', [b])
     S.no_panic('C07.e.nopanic', E, [prev <= U32, est.t <= U32 / 5], 'no overflow for estimates <= u32::MAX/5', [b])
+
+
+def locktime_and_output(S, D, W):
+    from .pkg_common import sym_package, oracle_input_args, inputs_line
+    NCAP = 2 if S.tier == 'quick' else 3
+    # ---- C07.d package_locktime -------------------------------------------------------------
+    E = S.engine(unwind=NCAP + 1)
+    mem = {}
+    f = S.fn('package_locktime', first_param='PackageTemplate')
+    pkg_ref, pkg, views, n = sym_package(S, E, D, mem, NCAP)
+    h = E.sym('h', 'u32')
+    rv = S.call(E, f, [pkg_ref, h], mem)
+    # packages never mix pre-signed (holder HTLC) inputs with inputs that carry a minimum locktime,
+    # and all pre-signed inputs of one package share their locktime; holder preimage claims carry cltv 0
+    # (the aggregation rules in PackageTemplate::can_merge_with enforce this; the code debug_asserts it)
+    holder = [z3.And(v['present'], v['kind'] == 4) for v in views]
+    recv = [z3.And(v['present'], v['kind'] == 3) for v in views]
+    wellformed = [z3.Not(z3.And(z3.Or(*holder), z3.Or(*recv)))]
+    for i in range(NCAP):
+        wellformed.append(z3.Implies(z3.And(holder[i], views[i]['preimage']), views[i]['hol_cltv'] == 0))
+        for j in range(i + 1, NCAP):
+            wellformed.append(z3.Implies(z3.And(holder[i], holder[j]), views[i]['hol_cltv'] == views[j]['hol_cltv']))
+    pre = [h.t < (1 << 31)] + wellformed
+    args = oracle_input_args(E, views, n) + [h.t]
+    b = Binding('package_locktime', args, [rv.t], panic=panic_of(E), line_fn=inputs_line(NCAP))
+    any_holder = z3.Or(*holder)
+    S.prove('C07.d.locktime_final', E, pre, z3.And(
+        z3.And(*[z3.Implies(recv[i], rv.t >= views[i]['rec_cltv']) for i in range(NCAP)]),
+        z3.And(*[z3.Implies(holder[i], rv.t == views[i]['hol_cltv']) for i in range(NCAP)]),
+        z3.Implies(z3.Not(any_holder), rv.t >= h.t)),
+        'the locktime of a claim transaction is at least every input\'s CLTV (time-outs of outbound HTLCs), exactly the pre-signed locktime for holder HTLC transactions, and otherwise at least the current height (anti fee-sniping)',
+        [b], bounds='<= %d inputs, heights < 2^31' % NCAP)
+    S.prove('C07.d.locktime_not_premature', E, pre + [z3.Not(any_holder)], z3.Or(rv.t == h.t, z3.Or(*[z3.And(recv[i], rv.t == views[i]['rec_cltv']) for i in range(NCAP)])),
+            'an unsigned package is locked to the current height unless an input forces a later one (it is never locked further into the future than required)', [b])
+    S.no_panic('C07.d.nopanic', E, pre, 'no panic (the internal consistency debug_asserts cannot fire on well-formed packages)', [b])
+    S.witness('C07.d.witness', E, pre + [n == NCAP], z3.And(recv[0], rv.t > h.t))
+
+    # ---- C07.c compute_package_output ---------------------------------------------------------
+    E = S.engine(unwind=NCAP + 1)
+    est = estimator(E)
+    mem = {}
+    f = S.fn('compute_package_output', first_param='PackageTemplate')
+    inp = E.sym('inp', 'u64')
+    E.models.insert(0, (re.compile(r'PackageTemplate::package_amount$'), lambda *a: inp))
+    PT = D.struct_fields('PackageTemplate')
+    pkg = E.sym('pkg', f.params[0][1], mem)
+    pv = mem[pkg.cell]
+    mal = E.read_path(pv, (('f', PT.index('malleability'), 'package::PackageMalleability'),), mem, True, 'spec')
+    prev = E.read_path(pv, (('f', PT.index('feerate_previous'), 'u64'),), mem, True, 'spec').t
+    w, dust = E.sym('w', 'u64'), E.sym('dust', 'u64')
+    strat = E.sym('strategy', f.params[3][1], mem)
+    sd = X.zint(mem[strat.cell].d)
+    rv = S.call(E, f, [pkg, w, dust, strat, X.Opaque('target'), X.Opaque('estimator'), X.Opaque('logger')], mem)
+    some = X.zint(rv.d) == 1
+    out, rate = rv.vs[1][0].fs[0].t, rv.vs[1][0].fs[1].t
+    pre = [X.zint(mal.d) == D.variant_index('PackageMalleability', 'Malleable'), inp.t <= SUPPLY_SAT, z3.Or(*[w.t == c for c in W]),
+           dust.t >= 1, dust.t <= 10000, z3.Or(prev == 0, z3.And(prev >= FLOOR, prev * w.t <= inp.t * 1000))]
+    cases = [w.t == c for c in W]
+    fee_paid = inp.t - out
+    bo = Binding('compute_package_output', [z3.IntVal(1), z3.IntVal(0), z3.IntVal(0), z3.BoolVal(False), inp.t, w.t, dust.t, sd, est.t, prev], [rv.d, out, rate], parse=opt2, panic=panic_of(E))
+    S.prove('C07.c.output_bounds', E, pre, z3.Implies(some, z3.And(out >= dust.t, z3.Or(out <= inp.t, out == dust.t), rate >= FLOOR, rate >= prev)),
+            'the claim output is never below the dust limit and never above what is being claimed (unless clamped up to the dust limit), and its feerate is at least the floor and the previous feerate',
+            bindings=[bo], bounds='weights %s, inputs <= 21e14 sat, dust 1..10000' % W, split=cases)
+    S.prove('C07.c.fee_matches_rate', E, pre, z3.Implies(z3.And(some, out > dust.t), z3.And(fee_paid * 1000 >= (rate - 1) * w.t - 1000, fee_paid <= inp.t)),
+            'unless the output was clamped to dust, the fee actually paid (inputs - output) corresponds to the reported feerate', [bo], split=cases)
+    S.no_panic('C07.c.nopanic', E, pre, 'no overflow / failed assert for admitted inputs', [bo])
+    S.witness('C07.c.witness', E, pre + [prev != 0], z3.And(some, out > dust.t))
